@@ -57,6 +57,44 @@ def production_kinds(facts):
                 elif nm == 'pop' and 'Vec' in info['def']:
                     pop = True
         composes[pid], refs[pid], pops[pid] = ks, rs, pop
+    # a generic helper that composes the kind it is given (`parse_enclosed(c, s, kind, open, inner, close)`): the
+    # production that calls it composes the constant it passes, and attaches what the function items it passes return
+    generic = {}
+    for pid, f in prods.items():
+        for fid in _family_ids(facts, cg, pid):
+            g = facts.fns.get(fid)
+            if g is None or not g.mir:
+                continue
+            for b, t in g.calls():
+                info = callee_of(t)
+                if info and P.strip(info['def']).split('::')[-1] == 'compose' and 'Context' in info['def'] and 'l' in t['args'][1]:
+                    from mirflow import slice_back
+                    sl = slice_back(g, t['args'][1]['l'])
+                    if sl['args'] and not [rv for rv, _ in sl['aggrs'] if 'SyntaxKind' in (rv.get('adt') or '')] and g.id == pid:
+                        generic[pid] = sorted(sl['args'])[0]
+    for gp, argi in generic.items():
+        composes[gp] = set()
+        for pid, f in prods.items():
+            if pid == gp:
+                continue
+            for fid in _family_ids(facts, cg, pid):
+                g = facts.fns.get(fid)
+                if g is None or not g.mir:
+                    continue
+                for b, t in g.calls():
+                    info = callee_of(t)
+                    if not info or (info.get('resolved_id') or info.get('id')) != gp or len(t['args']) < argi:
+                        continue
+                    from mirflow import slice_back
+                    a = t['args'][argi - 1]
+                    got = set()
+                    if 'l' in a:
+                        got = {rv.get('variant') for rv, _ in slice_back(g, a['l'])['aggrs'] if 'SyntaxKind' in (rv.get('adt') or '')}
+                    composes[pid] |= got or {'?'}
+                    refs[pid].discard(gp)
+    for gp in generic:
+        for pid in prods:
+            refs[pid].discard(gp)
     kinds = {p: set(composes[p]) for p in prods}
     changed = True
     while changed:
@@ -72,7 +110,7 @@ def production_kinds(facts):
                 changed = True
     pushed = {}
     for p in prods:
-        if composes[p]:
+        if composes[p] and p not in generic:
             s = set()
             for r in refs[p]:
                 s |= kinds[r]
